@@ -150,17 +150,42 @@ class Effects:
         for n in ast.walk(fn):
             if isinstance(n, ast.Call):
                 self.n_calls += 1
-                self._call(n, env, depth, owner)
+                self._call(n, self._scoped_env(n, env, fn), depth, owner)
             elif isinstance(n, (ast.Assign, ast.AugAssign)):
                 ts = n.targets if isinstance(n, ast.Assign) else [n.target]
                 for t in ts:
                     if isinstance(t, ast.Attribute) and not is_self_attr(t):
                         base = t.value
-                        bt = self.taint_of(base, env)
+                        bt = self.taint_of(base, self._scoped_env(n, env, fn))
                         if bt == LIVE:
                             self.findings.append((n, f"`{norm(n)[:70]}` stores an attribute of a live cluster object"))
                         elif _looks_like_task(base):
                             self.findings.append((n, f"`{norm(n)[:70]}` stores an attribute of a task"))
+
+    def _scoped_env(self, node: ast.AST, env: Dict[str, str], fn: ast.FunctionDef) -> Dict[str, str]:
+        """Inside a loop body the loop variable has the taint of THAT loop's iterable (a name may be bound by several loops:
+        once over the scratch copy for logging, once over the live pools)."""
+        out = None
+        chain = []
+        p = parent(node)
+        child = node
+        while p is not None and p is not fn:
+            if isinstance(p, ast.For) and any(child is x for x in p.body + p.orelse):
+                chain.append(p)
+            child, p = p, parent(p)
+        for lp in reversed(chain):  # outermost first, innermost wins
+            base = out if out is not None else env
+            t = self.taint_of(lp.iter, base)
+            names = [x.id for x in ast.walk(lp.target) if isinstance(x, ast.Name)]
+            if names:
+                if out is None:
+                    out = dict(env)
+                for nm in names:
+                    if t:
+                        out[nm] = t
+                    else:
+                        out.pop(nm, None)
+        return out if out is not None else env
 
     def _call(self, c: ast.Call, env: Dict[str, str], depth: int, owner: Optional[ast.ClassDef]) -> None:
         f = c.func
@@ -901,6 +926,19 @@ def r6_indicator_pairs(ctx: Context, rule: str = "C10.R6", gap_rule: Optional[st
         cls = ctx.repo.mod(rel).cls(cname)
         for mn in mnames:
             fn = method(cls, mn)
+            # the two halves of one indicator must constrain the same linear form
+            by_var: Dict[str, List[ast.Call]] = {}
+            for c in calls_in(fn, "addGenConstrIndicator"):
+                if len(c.args) >= 5:
+                    by_var.setdefault(norm(c.args[0]), []).append(c)
+            for var, cs in by_var.items():
+                forms = {norm(c.args[2]) for c in cs}
+                if len(cs) == 2 and len(forms) == 2 and lin.lin_of(cs[0].args[2]) != lin.lin_of(cs[1].args[2]):
+                    n += 1
+                    ctx.violation(rule, f"{rel}::{cname}.{mn}|indicator `{var[:50]}` halves over one expression", loc(cs[0]),
+                                  f"the b=0 and b=1 constraints of `{var}` are stated over different expressions "
+                                  f"(`{norm(cs[0].args[2])[:70]}` vs `{norm(cs[1].args[2])[:70]}`): the indicator no longer decides one "
+                                  "quantity, so e.g. whether one task ends before another starts is measured with the wrong task's duration")
             for gk, calls in indicator_pairs(fn).items():
                 if len(calls) != 2:
                     continue
@@ -958,4 +996,7 @@ def run(ctx: Context) -> None:
     ctx.isolate(batch_aggregates)
     ctx.isolate(r7_config_not_rewritten)
     ctx.isolate(r8_filter_visits_every_graph)
+    from . import c15, c18
+    ctx.isolate(c18.r2b_parameter_agreement, _alias={"C18.R2b": "C10.R9"})
+    ctx.isolate(c15.r2_full_batches, _alias={"C15.R2": "C10.R10"})
     ctx.isolate(r6_indicator_pairs)
